@@ -19,12 +19,26 @@ static Trace g_tr;
 struct Cb;
 static void adder_hook();
 static void copier_hook();
+#ifdef TRACKED
+// C08: every callback instance is counted; the live instances must be exactly the listeners of the live objects
+static int g_live_cb = 0, g_bad_cb = 0;
+struct Cb {
+	uint32_t id; uint32_t magic;
+	explicit Cb(uint32_t i) : id(i), magic(0xC0FFEEu) { ++g_live_cb; }
+	Cb(const Cb & o) : id(o.id), magic(0xC0FFEEu) { if(o.magic != 0xC0FFEEu) ++g_bad_cb; ++g_live_cb; }
+	Cb & operator=(const Cb & o) { if(o.magic != 0xC0FFEEu || magic != 0xC0FFEEu) ++g_bad_cb; id = o.id; return *this; }
+	~Cb() { if(magic != 0xC0FFEEu) ++g_bad_cb; magic = 0xDEADu; --g_live_cb; }
+	void operator()(uint32_t a) const { if(magic != 0xC0FFEEu) ++g_bad_cb; g_tr.add(id, a, 0); if(id == 7777u) adder_hook(); if(id == 6666u) copier_hook(); }
+	bool operator==(const Cb & o) const { return id == o.id; }
+};
+#else
 struct Cb {
 	uint32_t id;
 	explicit Cb(uint32_t i) : id(i) {}
 	void operator()(uint32_t a) const { g_tr.add(id, a, 0); if(id == 7777u) adder_hook(); if(id == 6666u) copier_hook(); }
 	bool operator==(const Cb & o) const { return id == o.id; }
 };
+#endif
 #ifndef THREADING
 #define THREADING VThreading
 #define INSTRUMENTED_CV 1
@@ -323,6 +337,9 @@ extern "C" void harness()
 #endif
 		for(int x = 0; x < NO; x++) for(int y = x + 1; y < NO; y++) if(m.alive[x] && m.alive[y] && m.n[x] != m.n[y]) vf_cover(COV_COPY_THEN_DIVERGE);
 		observe();
+#if defined(TRACKED) && ! IS_HETER
+		{ int want = 0; for(int x = 0; x < NO; x++) if(m.alive[x]) want += m.n[x]; vf_assert(g_live_cb == want, 138); vf_assert(g_bad_cb == 0, 139); }   // a removed callback is released at once, in copies too
+#endif
 	}
 #if OBJ == 0
 	// the nested-invocation rule on every object obtained: a callback added during an invocation is not called by it,
